@@ -169,6 +169,20 @@ class Spec(object):
     def sk(self, level=0):
         return self.gen.skolem(level)
 
+    def i2r_const(self, c):
+        """the conversion of the integer constant c is c"""
+        self.requires(E.idx('I2R', c, REAL).eq(Fraction(c)), 'i2r_const_%d' % c)
+        self.terms(c)
+
+    def i2r_axioms(self):
+        """facts about the exact conversion int -> double (exact and strictly monotone for every 32-bit int)"""
+        lo, hi = -(1 << 31), (1 << 31) - 1
+        f = lambda k: E.idx('I2R', k, REAL)
+        self.gen.globals_a['I2R'] = REAL
+        self.requires(f(0).eq(0) & f(1).eq(1) & f(-1).eq(-1), 'i2r_0')
+        self.requires(self.forall(lo, hi, lambda a: f(a + 1).eq(f(a) + 1)), 'i2r_succ')
+        self.requires(self.forall(lo, hi + 1, lambda a: self.forall(lo, hi + 1, lambda b: implies(a < b, f(a) < f(b)) & implies(a.eq(b), f(a).eq(f(b))))), 'i2r_monotone')
+
     def local(self, name):
         """value of a top-level local variable of the function under verification (verify mode, exit ghosts only)"""
         return self.wrap(self.gen.fn.locals[name])
@@ -223,7 +237,8 @@ class Generator(object):
         self.prop = prop
         self.cfgname = cfgname
         self.opt = options or {}
-        self.pr = Printer('real', i2r=self.opt.get('i2r'))
+        self.pr = Printer('real', i2r=self.print_i2r)
+        self.uses_i2r = False
         self.reset()
 
     def reset(self):
@@ -249,6 +264,13 @@ class Generator(object):
         else:
             self.globals_s[name] = ty
         return E.var(name, ty) if not array else name
+
+    def print_i2r(self, e, printer):
+        """int -> double conversion of a symbolic int: CBMC cannot convert int variables to rationals, so the conversion
+        is the (never assigned) array I2R with the axioms stated by i2r_axioms()"""
+        self.uses_i2r = True
+        self.globals_a['I2R'] = REAL
+        return 'I2R[%s]' % printer.p(e)
 
     def out(self, s):
         self.lines.append('  ' * self.ind + s)
@@ -508,11 +530,12 @@ class Generator(object):
         # pre-drawn havoc value of the loop variable, usable as an instantiation term everywhere
         h = self.fresh_global('h_' + lp.var, INT)
         self.add_term(h)
-        if ls.get('terms'):
-            from expr import subst
-            for t in ls['terms'](L):
-                self.add_term(subst(E.const(t), {lp.var: h}))
         invs = ls['inv'](L)
+        if ls.get('terms'):
+            late0 = [E.const(t) for t in ls['terms'](L)]
+            pool0 = list(self.all_terms()) + late0
+            for label, prop in self.stable_quants:
+                self.assume_quants_over(prop, pool0, 'requires %s (loop terms, entry)' % label)
         self.out('/* ---- loop %s (%s) : base */' % (lid, lp.src))
         for j, (label, prop) in enumerate(invs):
             self.assert_prop(prop, '%s.base.%s[%s]' % (base_id, label, self.cfgname), 'inv_base')
@@ -522,6 +545,14 @@ class Generator(object):
         self.havoc_names(sorted(sc.items()), sorted(ar.items()), loopvar=lp.var, loopvar_h=h)
         for label, prop in invs:
             self.assume_prop(prop, 'inv ' + label)
+        if ls.get('terms'):
+            # late terms of this loop: meaningful from the loop head on (they may mention locals assigned before the loop)
+            late = [E.const(t) for t in ls['terms'](L)]
+            pool = list(self.all_terms()) + late
+            for label, prop in invs:
+                self.assume_quants_over(prop, pool, 'inv %s (loop terms)' % label)
+            for label, prop in self.stable_quants:
+                self.assume_quants_over(prop, pool, 'requires %s (loop terms)' % label)
         variant0 = None
         self.out('if (%s) {' % self.p(lp.cond))
         self.ind += 1
